@@ -246,6 +246,16 @@ def r20d(ctx):
             ctx.check(c is not None and sg(c[1]).endswith('HashMap::get'), 'R20d', gfn, 'created=false', g.loc(b, si), '(c, false) returns the call found in the map')
         else:
             ctx.fail('R20d', gfn, 'ret.flag', g.loc(b, si), 'created flag is not a literal: cannot establish')
+    if ins:
+        # an entry that is present is never replaced: the insert is reached only on the absent (None) edge of the lookup
+        gets0 = g.calls('std::collections::hash::map::HashMap::get')
+        none_e = []
+        for x in gets0:
+            ve = g.variant_edges(x, 'core::option::Option<')
+            none_e += ve.get('0', []) + (ve.get('otherwise', []) if '0' not in ve else [])
+        for i_ in ins:
+            ctx.check(bool(none_e) and g.cfg.must_pass(i_, via_edges=none_e), 'R20d', gfn, 'insert.only-if-absent', g.loc(i_), 'a new call is inserted only on the key-absent edge of the lookup (an existing flight is never replaced)',
+                      'get_call_or_create can replace a call that is still in the map: its owner later removes the newcomer\'s entry, and a third caller starts a second concurrent task for the key')
     if lockg and ins:
         gets = g.calls('std::collections::hash::map::HashMap::get')
         ctx.check(bool(gets) and all(lockg[0].holds_at(x) for x in gets), 'R20d', gfn, 'get.in_guard', g.loc(gets[0]) if gets else '-', 'lookup and insert are in one live range of the guard (check-then-insert is atomic)')
